@@ -286,6 +286,9 @@ FIELD_SETS = [
     dict(protocol="tcp", src_ip_address="10.0.0.1", src_wildcard_mask=None, src_port=80, dst_ip_address="10.0.0.2", dst_wildcard_mask=None, dst_port=443),
     dict(protocol="udp", src_ip_address="10.0.0.0", src_wildcard_mask="0.0.0.255", src_port=0, dst_ip_address="10.0.1.0", dst_wildcard_mask="0.0.0.255", dst_port=0),
     dict(protocol="icmp", src_ip_address=None, src_wildcard_mask=None, src_port=None, dst_ip_address="10.0.0.2", dst_wildcard_mask=None, dst_port=None),
+    # source and destination ranges of DIFFERENT widths (exact host -> subnet, subnet -> wider subnet)
+    dict(protocol="tcp", src_ip_address="10.0.0.1", src_wildcard_mask=None, src_port=None, dst_ip_address="10.0.2.0", dst_wildcard_mask="0.0.0.255", dst_port=21),
+    dict(protocol=None, src_ip_address="10.0.0.0", src_wildcard_mask="0.0.0.15", src_port=None, dst_ip_address="10.0.0.0", dst_wildcard_mask="0.0.255.255", dst_port=None),
 ]
 
 
@@ -494,10 +497,11 @@ HARNESSES = {
     },
     "acl_edit": {
         "fn": acl_edit,
-        "quick": [{"fixed": {"max_rules": 25, "via_request": v}, "timeout": 240} for v in (False, True)],
+        "quick": [{"fixed": {"max_rules": 25, "via_request": v, "remove": False, "like": lk}, "timeout": 400} for v in (False, True) for lk in (0, 1, 2)]
+        + [{"fixed": {"max_rules": 25, "via_request": v, "remove": True, "like": 0, "fs": 0}, "timeout": 240} for v in (False, True)],
         "thorough": [{"fixed": {"max_rules": mr, "via_request": v, "remove": rm}, "timeout": 900} for mr in (25, 4) for v in (False, True) for rm in (False, True)],
         "cover": ["valid_pos", "invalid_pos"],
-        "bounds": "positions -2..max_acl_rules+1 (all), 4 field combinations incl. port 0 and wildcard masks, Python API and request API; occupied slots hold an unrelated rule, the same rule with other wildcard masks, or exactly the rule being added",
+        "bounds": "positions -2..max_acl_rules+1 (all), 6 field combinations incl. port 0, equal and different source / destination wildcard masks, Python API and request API; occupied slots hold an unrelated rule, the same rule with other wildcard masks, or exactly the rule being added",
     },
 }
 
